@@ -49,6 +49,10 @@ func (p *Program) origins(v ssa.Value) []string {
 		case *ssa.Global:
 			return []string{"global:" + x.Name()}
 		case *ssa.Alloc:
+			// a by-value struct parameter spilled into a local cell (`*t0 = v` in the entry block, then only field reads)
+			if sv := spilledParam(x); sv != nil {
+				return rec(sv, depth+1)
+			}
 			return []string{"alloc:" + typeName(x.Type())}
 		case *ssa.UnOp:
 			if x.Op == token.MUL {
@@ -264,4 +268,42 @@ func (g *IG) loopExactlyOnceA(nodes map[int]bool, avoid map[edge]bool) (bool, st
 		}
 	}
 	return false, why
+}
+
+// spilledParam: a is the local cell of a struct-typed parameter: stored exactly once, with the parameter, and otherwise only
+// read (loads, field addresses that are themselves only loaded).
+func spilledParam(a *ssa.Alloc) ssa.Value {
+	if a.Heap || a.Referrers() == nil {
+		return nil
+	}
+	if _, isSt := a.Type().Underlying().(*types.Pointer).Elem().Underlying().(*types.Struct); !isSt {
+		return nil
+	}
+	var val ssa.Value
+	for _, ref := range *a.Referrers() {
+		switch x := ref.(type) {
+		case *ssa.Store:
+			if x.Addr != ssa.Value(a) || val != nil {
+				return nil
+			}
+			if _, isP := x.Val.(*ssa.Parameter); !isP {
+				return nil
+			}
+			val = x.Val
+		case *ssa.UnOp:
+		case *ssa.FieldAddr:
+			if x.Referrers() == nil {
+				return nil
+			}
+			for _, r2 := range *x.Referrers() {
+				if u, isU := r2.(*ssa.UnOp); !isU || u.Op != token.MUL {
+					return nil
+				}
+			}
+		case *ssa.DebugRef:
+		default:
+			return nil
+		}
+	}
+	return val
 }
